@@ -927,7 +927,8 @@ pub fn gen_query(rng: &mut Rng, table: &str, t: &MTable, cols: &QCols, kind: QKi
             let na = 1 + rng.below(3);
             for _ in 0..na {
                 let f = if kind == QKind::SumOverflow { AggFn::Sum } else { *rng.pick(&[AggFn::Count, AggFn::Sum, AggFn::Min, AggFn::Max]) };
-                let apool = if spicy { cols.clone_cols() } else { QCols { ints: nn.ints.clone(), floats: vec![], strs: vec![] } };
+                // (mild: integer columns, nullable ones included; float aggregates trip open findings)
+                let apool = if spicy { cols.clone_cols() } else { QCols { ints: cols.ints.clone(), floats: vec![], strs: vec![] } };
                 let numeric: Vec<&String> = apool.ints.iter().chain(apool.floats.iter()).collect();
                 let arg = if f == AggFn::Count && rng.below(2) == 0 {
                     Expr::I(1)
@@ -1268,7 +1269,6 @@ pub fn dominant_feature(features: &str) -> &'static str {
         "str_const_leaves2",
         "arith_nullable",
         "group_nullable",
-        "agg_nullable",
         "order_nullable",
         "str_order",
         "group_float",
